@@ -5,11 +5,21 @@ Import ListNotations.
 
 Definition fault_free (es : list ev) : Prop := Forall (fun e => e <> Fault) es.
 
+Lemma min_np_spec : forall n p, min_np n p = Nat.min n (Pos.to_nat p).
+Proof.
+  induction n as [|n IH]; intros p; [reflexivity|]. cbn [min_np].
+  destruct (Pos.eq_dec p 1) as [->|Hp]; [rewrite Pos2Nat.inj_1; destruct n; reflexivity|].
+  assert (Hs : Pos.to_nat p = S (Pos.to_nat (Pos.pred p))).
+  { rewrite Pos2Nat.inj_pred by lia. pose proof (Pos2Nat.is_pos p). lia. }
+  replace (match p with xH => 1%nat | _ => S (min_np n (Pos.pred p)) end) with (S (min_np n (Pos.pred p)))
+    by (destruct p; congruence).
+  rewrite IH, Hs. reflexivity.
+Qed.
+
 Lemma chunk_of_bounds : forall e want, e <> Fault -> (0 < want)%nat -> (1 <= chunk_of e want <= want)%nat.
 Proof.
   intros e want He Hw. destruct e as [p| |]; [| |congruence]; cbn [chunk_of].
-  - rewrite N2Nat.inj_min, Nat2N.id.
-    assert (0 < N.to_nat (N.pos p))%nat by lia. lia.
+  - rewrite min_np_spec. pose proof (Pos2Nat.is_pos p). lia.
   - split.
     + apply Nat.div_le_lower_bound; lia.
     + apply Nat.div_le_upper_bound; lia.
